@@ -39,4 +39,83 @@ theorem reduce_over_proved_gcd (W : Nat) (hW : 0 < W) (q : Q) (hd : 0 < q.den) (
       reduce q = .ok ⟨Int.tdiv q.num g, q.den / g⟩ ∧ Reduced ⟨Int.tdiv q.num g, q.den / g⟩ :=
   Dashu.Props.C04Link.reduce_over_proved_gcd W hW q hd hn
 
+-- ------------------------------------------------------------------ the whole descent over the proved kernels (round 7)
+/-
+  Every `div_rem`, `*`, `+`, `-` of the `loop { … }` of `Repr::simplest_in` executed on the mirrored and proved
+  word-level kernels of dashu-int (C01 `ibigMul` / `ibigAdd` / `ibigSub`, C02 `ibigDivRem`) on canonical
+  representations: the loop so computed (`simplestLoopW`) equals the model's loop over Lean `Int` arithmetic for every
+  word size ≥ 4 bits, every state, every fuel, every ownership form of `+` / `-`.  (The test `num_l < den_l` stays an
+  `Int` comparison: `IBig::cmp` is C14's subject, linked for `Repr::cmp` in Props/C18Link.)
+-/
+
+/-- `IBig * IBig` through the mirrored kernel (`ibigMul`) on canonical representations -/
+def mulW (W : Nat) (x y : Int) : Int := (ibigMul W (.ofInt W x) (.ofInt W y)).value W
+/-- `IBig + IBig` through the mirrored kernel, ownership form `form` -/
+def addW (W : Nat) (form : Nat) (x y : Int) : Int := (ibigAdd W (.ofInt W x) (.ofInt W y) form).value W
+/-- `IBig - IBig` through the mirrored kernel, ownership form `form` -/
+def subW (W : Nat) (form : Nat) (x y : Int) : Int := (ibigSub W (.ofInt W x) (.ofInt W y) form).value W
+/-- `IBig::div_rem(&IBig)` through the mirrored kernel (sign table over `div_rem_repr`) -/
+def divRemW (W : Nat) (a b : Int) : Except PanicKind (Int × Int) :=
+  (ibigDivRem W (.ofInt W a) (.ofInt W b)).map (fun qr => (qr.1.value W, qr.2.value W))
+
+/-- the `loop { … }` of `Repr::simplest_in` (same text as `simplestLoop`), every arithmetic operation through the
+    word-level kernels at word size `W` -/
+def simplestLoopW (W form : Nat) : Nat → SState → Except PanicKind (Option (Int × Int))
+  | 0, _ => .ok none
+  | fuel + 1, s => do
+    let (q, r1) ← divRemW W s.numL s.denL
+    let n0' := addW W form s.n1 (mulW W q s.n0)
+    let n1' := s.n0
+    let d0' := addW W form s.d1 (mulW W q s.d0)
+    let d1' := s.d0
+    let r2 := subW W form s.numR (mulW W q s.denR)
+    let numL' := s.denR
+    let denR' := r1
+    let numR' := s.denL
+    let denL' := r2
+    if numL' < denL' then pure (some (addW W form n0' n1', addW W form d0' d1'))
+    else simplestLoopW W form fuel ⟨numL', denL', numR', denR', n0', d0', n1', d1'⟩
+
+theorem mulW_eq (W : Nat) (hW : 4 ≤ W) (x y : Int) : mulW W x y = x * y :=
+  ((Dashu.Props.C04Link.ring_contracts_are_proved_kernels W hW x y 0).1).symm
+theorem addW_eq (W : Nat) (hW : 4 ≤ W) (form : Nat) (x y : Int) : addW W form x y = x + y :=
+  ((Dashu.Props.C04Link.ring_contracts_are_proved_kernels W hW x y form).2.1).symm
+theorem subW_eq (W : Nat) (hW : 4 ≤ W) (form : Nat) (x y : Int) : subW W form x y = x - y :=
+  ((Dashu.Props.C04Link.ring_contracts_are_proved_kernels W hW x y form).2.2).symm
+theorem divRemW_eq (W : Nat) (hW : 4 ≤ W) (a b : Int) : divRemW W a b = idivRemK a b := by
+  have h1 : 1 ≤ W := by omega
+  have h := descent_div_rem_is_proved_kernel W hW (.ofInt W a) (.ofInt W b)
+    (SRepr.ofInt_wf W h1 a) (SRepr.ofInt_wf W h1 b)
+  rw [SRepr.ofInt_value W h1, SRepr.ofInt_value W h1] at h
+  exact h
+
+/-- **the descent over the proved kernels is the model's descent** -/
+theorem descent_over_proved_kernels (W : Nat) (hW : 4 ≤ W) (form fuel : Nat) (s : SState) :
+    simplestLoopW W form fuel s = simplestLoop fuel s := by
+  induction fuel generalizing s with
+  | zero => rfl
+  | succ n ih =>
+    simp only [simplestLoopW, simplestLoop, mulW_eq W hW, addW_eq W hW, subW_eq W hW, divRemW_eq W hW, ih]
+
+/-- non-vacuity: 1/3 .. 1/2 at 64-bit words: the kernels' descent returns 2/5 -/
+example : simplestLoopW 64 0 6 ⟨1, 3, 1, 2, 1, 0, 0, 1⟩ = .ok (some (2, 5)) := by
+  rw [descent_over_proved_kernels 64 (by decide)]; decide
+
+/-- hence the descent of `Repr::simplest_in` as started by the code (`n0, d0, n1, d1 = 1, 0, 0, 1`), run on the proved
+    word-level kernels with the fuel the model gives it, terminates with a fraction `A/B` strictly between `a/b` and
+    `c/d` whose numerator AND denominator are minimal among all fractions strictly between — for every word size ≥ 4 -/
+theorem kernel_descent_optimal (W : Nat) (hW : 4 ≤ W) (form fuel : Nat) (a b c d : Int) (h : SInv a b c d)
+    (hf : (b + d).toNat < fuel) :
+    ∃ A B, simplestLoopW W form fuel ⟨a, b, c, d, 1, 0, 0, 1⟩ = .ok (some (A, B)) ∧ 0 < A ∧ 0 < B ∧
+      a * B < A * b ∧ A * d < c * B ∧
+      ∀ p s : Int, 0 < s → a * s < p * b → p * d < c * s → A ≤ p ∧ B ≤ s := by
+  obtain ⟨A, B, e, r⟩ := Dashu.Props.C18.simplest_descent fuel a b c d h hf
+  refine ⟨A, B, ?_, r⟩
+  rw [descent_over_proved_kernels W hW, Dashu.Props.C18.simplest_loop_is_descent fuel a b c d 1 0 0 1 h, e]
+  simp
+
+/-- non-vacuity of the hypotheses: 1234/5678 .. 1235/5679 -/
+example : SInv 1234 5678 1235 5679 ∧ ((5678 : Int) + 5679).toNat < 11358 := by
+  refine ⟨?_, by decide⟩; unfold SInv; decide
+
 end Dashu.Props.C18Kernels
